@@ -5,6 +5,9 @@
 //! `debug::Logger`; the returned breakpoints and every logged candidate line are sent to the
 //! Lean driver, which decides the property with the proved-optimal reference (`verdict=`) and
 //! re-rates every candidate line (`cand=`, the tie between the spec's badness/demerits and the code).
+//! Cases `bl <q> <pretol> <parfillskip×4> <nH> (pos pre)* <inst>` (stream `passes`) drive the user-level
+//! `boxworks::LineBreaker::break_line`: TeX.2021.816 list preparation, the pretolerance / tolerance /
+//! emergency passes with a test hyphenator in between, and `post_line_break`'s line boxes.
 //! The driver also runs `C04.algo`, the Lean transcription of the active-list algorithm about which
 //! `algo_sound` / `algo_optimal` are proved, on the same instance: its break list must be exactly the
 //! real one (`algo=`, stream `algo`, `Kind::ImplVsModel`).
@@ -16,8 +19,14 @@ use vh::*;
 
 struct Repo;
 impl boxworks::FontRepo for Repo {
-    fn width(&self, c: char, _font: u32) -> Option<Scaled> {
-        Some(Scaled((c as u32 as i32) * 1000))
+    /// Character `x` of font `f` is `f` scaled points wide (so that any non-negative width can be a
+    /// character or ligature node); other characters are 1000 sp per code point.
+    fn width(&self, c: char, font: u32) -> Option<Scaled> {
+        if c == 'x' {
+            Some(Scaled(font as i32))
+        } else {
+            Some(Scaled((c as u32 as i32) * 1000))
+        }
     }
     fn height(&self, _c: char, _font: u32) -> Option<Scaled> {
         None
@@ -36,7 +45,8 @@ enum It {
     Box(i64),
     Inert,
     Glue(i64, i64, i64, i64),
-    Kern(bool, i64),
+    /// kind: 0 normal, 1 explicit, 2 accent, 3 math (only 1 is `explicit` in the model)
+    Kern(i64, i64),
     Penalty(i64),
     Disc(Vec<i64>, Vec<i64>, i64),
     Math(bool),
@@ -71,7 +81,7 @@ impl Inst {
                 It::Box(w) => v.extend([0, *w]),
                 It::Inert => v.push(1),
                 It::Glue(w, st, so, sh) => v.extend([2, *w, *st, *so, *sh]),
-                It::Kern(e, w) => v.extend([3, *e as i64, *w]),
+                It::Kern(e, w) => v.extend([3, *e, *w]),
                 It::Penalty(p) => v.extend([4, *p]),
                 It::Disc(pre, post, r) => {
                     v.push(5);
@@ -112,7 +122,7 @@ impl Inst {
                 0 => It::Box(nx()),
                 1 => It::Inert,
                 2 => It::Glue(nx(), nx(), nx(), nx()),
-                3 => It::Kern(nx() != 0, nx()),
+                3 => It::Kern(nx(), nx()),
                 4 => It::Penalty(nx()),
                 5 => {
                     let np = nx();
@@ -144,28 +154,63 @@ fn hbox(w: i64) -> ds::HBox {
     ds::HBox { width: Scaled(w as i32), ..Default::default() }
 }
 
+/// The concrete node behind an abstract "box" of width `w`: hbox, character, rule, vbox, ligature
+/// (`sel` picks; characters and ligatures need a non-negative width).
+fn box_node(w: i64, sel: usize) -> ds::Horizontal {
+    match sel % 5 {
+        1 if (0..=i32::MAX as i64).contains(&w) => ds::Horizontal::Char(ds::Char { char: 'x', font: w as u32 }),
+        2 => ds::Horizontal::Rule(ds::Rule { width: Scaled(w as i32), ..Default::default() }),
+        3 => ds::Horizontal::VBox(ds::VBox { width: Scaled(w as i32), ..Default::default() }),
+        4 if (0..=i32::MAX as i64).contains(&w) => ds::Horizontal::Ligature(ds::Ligature {
+            char: 'x',
+            font: w as u32,
+            original_chars: "xx".into(),
+            includes_left_boundary: false,
+            includes_right_boundary: false,
+        }),
+        _ => ds::Horizontal::HBox(hbox(w)),
+    }
+}
+
+/// The same for the elements of a discretionary (which may also be kerns).
+fn disc_elem(w: i64, sel: usize) -> ds::DiscretionaryElem {
+    if sel % 6 == 5 {
+        return ds::DiscretionaryElem::Kern(ds::Kern { width: Scaled(w as i32), kind: ds::KernKind::Normal });
+    }
+    match box_node(w, sel % 6) {
+        ds::Horizontal::Char(c) => ds::DiscretionaryElem::Char(c),
+        ds::Horizontal::Rule(r) => ds::DiscretionaryElem::Rule(r),
+        ds::Horizontal::VBox(b) => ds::DiscretionaryElem::VBox(b),
+        ds::Horizontal::Ligature(l) => ds::DiscretionaryElem::Ligature(l),
+        ds::Horizontal::HBox(b) => ds::DiscretionaryElem::HBox(b),
+        _ => unreachable!(),
+    }
+}
+
 fn build_list(items: &[It]) -> Vec<ds::Horizontal> {
     let mut v: Vec<ds::Horizontal> = vec![];
     for (k, it) in items.iter().enumerate() {
         v.push(match it {
-            // vary the concrete node kind behind "box": hbox, rule, char (width from the font repo)
-            It::Box(w) => {
-                if *w >= 0 && *w % 1000 == 0 && *w / 1000 < 0xD000 && *w > 0 && k % 3 == 1 {
-                    ds::Horizontal::Char(ds::Char { char: char::from_u32((*w / 1000) as u32).unwrap(), font: 0 })
-                } else {
-                    ds::Horizontal::HBox(hbox(*w))
-                }
-            }
-            It::Inert => ds::Horizontal::Mark(ds::Mark { list: vec![] }),
+            // vary the concrete node kind behind "box" with the position
+            It::Box(w) => box_node(*w, k),
+            It::Inert => match k % 2 {
+                0 => ds::Horizontal::Mark(ds::Mark { list: vec![] }),
+                _ => ds::Horizontal::Adjust(ds::Adjust { list: vec![] }),
+            },
             It::Glue(w, st, so, sh) => ds::Horizontal::Glue(ds::Glue { kind: ds::GlueKind::Normal, value: glue([*w, *st, *so, *sh]) }),
             It::Kern(e, w) => ds::Horizontal::Kern(ds::Kern {
                 width: Scaled(*w as i32),
-                kind: if *e { ds::KernKind::Explicit } else { ds::KernKind::Normal },
+                kind: match *e {
+                    1 => ds::KernKind::Explicit,
+                    2 => ds::KernKind::Accent,
+                    3 => ds::KernKind::Math,
+                    _ => ds::KernKind::Normal,
+                },
             }),
             It::Penalty(p) => ds::Horizontal::Penalty(ds::Penalty(*p as i32)),
             It::Disc(pre, post, r) => ds::Horizontal::Discretionary(ds::Discretionary {
-                pre_break: pre.iter().map(|w| ds::DiscretionaryElem::HBox(hbox(*w))).collect(),
-                post_break: post.iter().map(|w| ds::DiscretionaryElem::HBox(hbox(*w))).collect(),
+                pre_break: pre.iter().enumerate().map(|(j, w)| disc_elem(*w, k + j)).collect(),
+                post_break: post.iter().enumerate().map(|(j, w)| disc_elem(*w, k + j + 3)).collect(),
                 replace_count: *r as u32,
             }),
             It::Math(a) => ds::Horizontal::Math(if *a { ds::Math::After } else { ds::Math::Before }),
@@ -241,6 +286,140 @@ fn run_real(inst: &Inst, force: bool, q: i64) -> (Option<Vec<usize>>, Log) {
     (res, log)
 }
 
+/// Logger for the `passes` stream: which attempts ran, and the chain of breaks of the selected node.
+#[derive(Default)]
+struct PassLog {
+    attempts: Vec<u8>,
+    /// per node of the current attempt: (elem, previous node index)
+    nodes: Vec<(usize, usize)>,
+    last_elem: usize,
+    selected: Option<usize>,
+}
+impl kp::debug::Logger for PassLog {
+    fn log_attempt(&mut self, a: kp::debug::Attempt) {
+        self.attempts.push(a.number());
+        self.nodes.clear();
+        self.nodes.push((0, 0));
+        self.selected = None;
+    }
+    fn log_feasible_breakpoint(&mut self, _list: &[ds::Horizontal], fb: kp::debug::FeasibleBreakpoint) {
+        self.last_elem = fb.elem_index;
+    }
+    fn log_new_active_node(&mut self, an: kp::debug::NewActiveNode) {
+        self.nodes.push((self.last_elem, an.previous_node_index));
+    }
+    fn log_selected_node(&mut self, node_index: usize) {
+        self.selected = Some(node_index);
+    }
+}
+
+/// Test hyphenator: inserts `\discretionary{pre}{}{}` before the given positions of the list it is
+/// handed (positions refer to that list before any insertion).
+struct InsertHyph(Vec<(usize, i64)>);
+impl boxworks::Hyphenator for InsertHyph {
+    fn hyphenate(&self, list: &mut Vec<ds::Horizontal>) {
+        let mut hs = self.0.clone();
+        hs.sort();
+        for (pos, pre) in hs.into_iter().rev() {
+            if pos <= list.len() {
+                list.insert(
+                    pos,
+                    ds::Horizontal::Discretionary(ds::Discretionary {
+                        pre_break: vec![ds::DiscretionaryElem::HBox(hbox(pre))],
+                        post_break: vec![],
+                        replace_count: 0,
+                    }),
+                );
+            }
+        }
+    }
+}
+
+struct PassRun {
+    attempt: u8,
+    breaks: Vec<usize>,
+    final_len: usize,
+    /// widths of the line boxes in the vertical list
+    line_widths: Vec<i64>,
+    /// natural widths of their contents
+    line_naturals: Vec<i64>,
+}
+
+fn natural_width(list: &[ds::Horizontal]) -> i64 {
+    use boxworks::FontRepo;
+    list.iter()
+        .map(|h| match h {
+            ds::Horizontal::Char(c) => Repo.width(c.char, c.font).map_or(0, |w| w.0 as i64),
+            ds::Horizontal::Ligature(c) => Repo.width(c.char, c.font).map_or(0, |w| w.0 as i64),
+            ds::Horizontal::HBox(b) => b.width.0 as i64,
+            ds::Horizontal::VBox(b) => b.width.0 as i64,
+            ds::Horizontal::Rule(r) => r.width.0 as i64,
+            ds::Horizontal::Glue(g) => g.value.width.0 as i64,
+            ds::Horizontal::Kern(k) => k.width.0 as i64,
+            _ => 0,
+        })
+        .sum()
+}
+
+/// The user-level entry point: `boxworks::LineBreaker::break_line` (TeX.2021.815-816, all passes, post_line_break).
+fn run_passes(inst: &Inst, q: i64, pretol: i64, pf: [i64; 4], hyph: &[(usize, i64)]) -> Result<PassRun, String> {
+    let params = kp::Params {
+        adj_demerits: inst.adj as i32,
+        double_hyphen_demerits: inst.dbl as i32,
+        final_hyphen_demerits: inst.fin as i32,
+        ex_hyphen_penalty: inst.exhyph_pen as i32,
+        hyphen_penalty: inst.hyph_pen as i32,
+        line_penalty: inst.line_pen as i32,
+        looseness: q as i32,
+        left_skip: glue(inst.left),
+        right_skip: glue(inst.right),
+        tolerance: inst.tol as i32,
+        pre_tolerance: pretol as i32,
+        emergency_stretch: Scaled(inst.emerg as i32),
+        par_fill_skip: glue(pf),
+        ..kp::Params::plain_tex_defaults()
+    };
+    let widths: Vec<Scaled> = inst.widths.iter().map(|w| Scaled(*w as i32)).collect();
+    let mut list = build_list(&inst.items);
+    let mut v_list: Vec<ds::Vertical> = vec![];
+    let mut log = PassLog::default();
+    let hy = InsertHyph(hyph.to_vec());
+    {
+        use boxworks::LineBreaker;
+        let lb = kp::LineBreaker { params: &params, line_widths: &widths, line_indents: &[], debug_logger: Some(&mut log), hyphenator: &hy };
+        lb.break_line(&Repo, &mut v_list, &mut list);
+    }
+    let attempt = *log.attempts.last().ok_or("no attempt was logged")?;
+    let mut breaks = vec![];
+    let mut idx = log.selected.ok_or("no node was selected")?;
+    let mut guard = 0;
+    while idx > 0 {
+        let (elem, prev) = *log.nodes.get(idx).ok_or("selected chain leaves the logged nodes")?;
+        breaks.push(elem);
+        idx = prev;
+        guard += 1;
+        if guard > 100_000 {
+            return Err("selected chain does not end".into());
+        }
+    }
+    breaks.reverse();
+    let line_widths = v_list.iter().filter_map(|v| if let ds::Vertical::HBox(h) = v { Some(h.width.0 as i64) } else { None }).collect();
+    let line_naturals = v_list.iter().filter_map(|v| if let ds::Vertical::HBox(h) = v { Some(natural_width(&h.list)) } else { None }).collect();
+    Ok(PassRun { attempt, breaks, final_len: list.len(), line_widths, line_naturals })
+}
+
+/// TeX.2021.108, used by the generators only (to place inputs on the class boundaries).
+fn tex_badness(t: i64, s: i64) -> i64 {
+    if t == 0 {
+        return 0;
+    }
+    if s <= 0 {
+        return 10000;
+    }
+    let r = if t <= 7_230_584 { t * 297 / s } else if s >= 1_663_497 { t / (s / 297) } else { t };
+    if r > 1290 { 10000 } else { (r * r * r + 131072) / 262144 }
+}
+
 struct C04;
 
 fn is_boxlike(it: &It) -> bool {
@@ -281,24 +460,40 @@ impl C04 {
             let n_boxes = 1 + rng.below(3) as usize;
             if wi > 0 && rng.chance(1, 8) {
                 // a word that starts with a font/accent kern: not discardable, belongs to the line
-                items.push(It::Kern(false, u(*rng.pick(&[5, 3, -2]))));
+                items.push(It::Kern(*rng.pick(&[0, 0, 2, 3]), u(*rng.pick(&[5, 3, -2]))));
             }
             for bi in 0..n_boxes {
                 items.push(It::Box(u(*rng.pick(&[4, 6, 6, 7, 9, 12, 20])) + if unit > 1 && rng.chance(1, 3) { rng.range(-500, 500) } else { 0 }));
                 if bi + 1 < n_boxes && rng.chance(1, 3) {
                     // discretionary, possibly replacing the next box
-                    let pre = if rng.chance(4, 5) { vec![u(2)] } else { vec![] };
-                    let post = if rng.chance(1, 4) { vec![u(*rng.pick(&[1, 3]))] } else { vec![] };
-                    let r = if rng.chance(1, 4) { 1 } else { 0 };
+                    let pre = match rng.below(10) {
+                        0 | 1 => vec![],
+                        2 => vec![u(1), u(2)],
+                        _ => vec![u(2)],
+                    };
+                    let post = match rng.below(8) {
+                        0 => vec![u(*rng.pick(&[1, 3]))],
+                        1 => vec![u(*rng.pick(&[2, 6, 9])), u(1)],
+                        _ => vec![],
+                    };
+                    let r = match rng.below(8) {
+                        0 | 1 => 1,
+                        2 => 2,
+                        _ => 0,
+                    };
                     items.push(It::Disc(pre, post, r));
                     if r == 1 && rng.chance(1, 6) {
                         // replaced explicit kern directly before the inter-word glue
-                        items.push(It::Kern(true, u(1)));
+                        items.push(It::Kern(1, u(*rng.pick(&[1, 4, 8]))));
                         items.push(It::Glue(sp[0], u(2), 0, u(1)));
                         items.push(It::Box(u(6)));
+                    } else if r == 2 {
+                        // the discretionary replaces a (font) kern and a box, as after ligature/kern reconstitution
+                        items.push(It::Kern(*rng.pick(&[0, 0, 2]), u(*rng.pick(&[-3, 4, 8]))));
+                        items.push(It::Box(u(*rng.pick(&[4, 7]))));
                     }
                 } else if bi + 1 < n_boxes && rng.chance(1, 6) {
-                    items.push(It::Kern(false, u(*rng.pick(&[-1, 1]))));
+                    items.push(It::Kern(*rng.pick(&[0, 0, 0, 2, 3]), u(*rng.pick(&[-1, 1]))));
                 }
                 if rng.chance(1, 25) {
                     items.push(It::Inert);
@@ -322,12 +517,13 @@ impl C04 {
                     items.push(It::Glue(sp[2], u(1), 0, u(1)));
                 }
                 2 => {
-                    items.push(It::Kern(true, u(*rng.pick(&[2, 5, -2]))));
+                    // mostly explicit (a breakpoint before glue); accent / math kerns are not (the glue after them is)
+                    items.push(It::Kern(*rng.pick(&[1, 1, 1, 2, 3, 0]), u(*rng.pick(&[2, 5, -2]))));
                     items.push(It::Glue(sp[0], u(2), 0, u(1)));
                 }
                 3 => {
                     items.push(It::Glue(sp[0], u(2), 0, u(1)));
-                    items.push(It::Kern(true, u(3)));
+                    items.push(It::Kern(*rng.pick(&[1, 1, 1, 3]), u(3)));
                     items.push(It::Glue(sp[0], u(2), 0, u(1)));
                 }
                 4 => items.push(It::Glue(sp[1], u(*rng.pick(&[0, 1, 10])), *rng.pick(&[0, 0, 1, 2, 3]), u(*rng.pick(&[0, 2])))),
@@ -375,7 +571,7 @@ impl C04 {
             It::Glue(5, 3, 0, 2),
             It::Penalty(0),
             It::Penalty(-10000),
-            It::Kern(true, 2),
+            It::Kern(1, 2),
             It::Disc(vec![3], vec![], 0),
             It::Disc(vec![2], vec![4], 1),
         ]
@@ -391,7 +587,12 @@ impl Property for C04 {
          followed by the paragraph end, at tolerances {200, 10000}, force ∈ {0,1}; (b) random paragraphs of 1–14 words (boxes, discretionaries with replace counts, \
          font kerns, math on/off, runs of discardable items between words, finite and infinite stretch, 1–3 line widths, left/right skip, emergency stretch) × random \
          parameter settings × looseness ∈ {0,±1,±2} × force ∈ {0,1}; (c) a looseness stream: short paragraphs with finite stretch on the last line \
-         (several end states per line count), looseness ∈ {±1,±2,0}. The verdict is computed by Lean with the proved-optimal reference; instances outside the \
+         (several end states per line count), looseness ∈ {±1,±2,0}; (d) a fitness-boundary stream: one or two lines engineered to have badness exactly 12/13/99/100 \
+         (stretching) or 12/13 (shrinking) inside otherwise random paragraphs, several adj_demerits; (e) a badness-arithmetic stream of one-line paragraphs at the case \
+         boundaries of TeX.2021.108; (f) stream `passes` (cases `bl …`): the user-level `break_line` on lists without the paragraph end (optional trailing glue), with \
+         \\pretolerance, \\tolerance, \\emergencystretch, \\parfillskip and a test hyphenator that inserts discretionaries before the second pass; every pass is judged with \
+         the proved reference for its own parameters, the attempt and break list are compared with the model of the three passes, and the line boxes with the breaks \
+         (count, set width, natural width of the contents). Kerns come in all four kinds (normal, explicit, accent, math). The verdict is computed by Lean with the proved-optimal reference; instances outside the \
          quantifier (overfull not upward closed; totals that may reach 2^30) are skipped and counted. Non-trivial = inside the domain and with at least 2 legal \
          breakpoints; distinct = distinct case string."
             .into()
@@ -409,7 +610,7 @@ impl Property for C04 {
         };
         let end = || vec![It::Penalty(10000), It::Glue(0, 65536, 1, 0)];
         // C04-a: break at an explicit kern followed by glue (the kern must not count in the next line)
-        let mut a = vec![It::Box(10), It::Glue(5, 3, 0, 2), It::Box(10), It::Kern(true, 4), It::Glue(5, 3, 0, 2), It::Box(10), It::Glue(5, 3, 0, 2), It::Box(12)];
+        let mut a = vec![It::Box(10), It::Glue(5, 3, 0, 2), It::Box(10), It::Kern(1, 4), It::Glue(5, 3, 0, 2), It::Box(10), It::Glue(5, 3, 0, 2), It::Box(12)];
         a.extend(end());
         v.push(mk(a));
         // C04-b: discardable items after a break (glue penalty glue) must not count in the next line
@@ -456,7 +657,7 @@ impl Property for C04 {
         // badness arithmetic stream (TeX.2021.108): one-line paragraphs `box glue` whose shortfall t and
         // stretch (or shrink) s sit at and around the case boundaries of the routine
         // (t = 7230584, s = 1663497, r = 1290, s multiples of 297), at tolerances around the result
-        let n_bad = if ctx.thorough { 60_000 } else { 6_000 };
+        let n_bad = if ctx.thorough { 60_000 } else { 4_500 };
         let mut r = rng.fork();
         let ts: [i64; 12] = [1, 297, 7230583, 7230584, 7230585, 7249875, 8388608, 16777216, 100_000_000, 536_870_911, 1_000_000_000, 65536];
         let ss: [i64; 12] = [1, 296, 297, 298, 1663496, 1663497, 1663498, 5742197, 3_000_000, 30_000_000, 900_000_000, 65536];
@@ -484,25 +685,30 @@ impl Property for C04 {
         let mut r = rng.fork();
         for _ in 0..n_loose {
             let mut items = vec![];
-            let words = 2 + r.below(6) as usize;
+            // one case in six is a *symmetric* paragraph (identical words and glue, rigid \parfillskip,
+            // no adj_demerits): permuted line lengths give different end states of exactly equal demerits,
+            // i.e. ties in the selection of TeX.2021.874-875
+            let symmetric = r.chance(1, 6);
+            let words = if symmetric { 5 + r.below(5) as usize } else { 2 + r.below(6) as usize };
+            let (sym_box, sym_st) = (*r.pick(&[20i64, 30]), *r.pick(&[40i64, 20]));
             for w in 0..words {
-                items.push(It::Box(*r.pick(&[10, 15, 30, 30, 20])));
+                items.push(It::Box(if symmetric { sym_box } else { *r.pick(&[10, 15, 30, 30, 20]) }));
                 if w + 1 < words {
-                    if r.chance(1, 4) {
+                    if !symmetric && r.chance(1, 4) {
                         items.push(It::Penalty(*r.pick(&[70, 0, -50, 150])));
                     }
-                    items.push(It::Glue(5, *r.pick(&[40, 40, 20, 10]), 0, *r.pick(&[0, 0, 2])));
+                    items.push(if symmetric { It::Glue(5, sym_st, 0, 2) } else { It::Glue(5, *r.pick(&[40, 40, 20, 10]), 0, *r.pick(&[0, 0, 2])) });
                 }
             }
             items.push(It::Penalty(10000));
-            items.push(It::Glue(0, *r.pick(&[110, 60, 30, 200]), 0, 0));
+            items.push(It::Glue(0, if symmetric { 0 } else { *r.pick(&[110, 60, 30, 200]) }, 0, 0));
             let inst = Inst {
                 tol: *r.pick(&[200, 200, 1000, 10000]),
                 emerg: 0,
                 line_pen: 10,
                 hyph_pen: 50,
                 exhyph_pen: 50,
-                adj: *r.pick(&[10000, 10000, 0]),
+                adj: if symmetric { 0 } else { *r.pick(&[10000, 10000, 0]) },
                 dbl: 10000,
                 fin: 5000,
                 left: [0; 4],
@@ -514,7 +720,133 @@ impl Property for C04 {
             let force = r.chance(1, 5) as i64;
             v.push(format!("kp {force} {q} {}", join(&inst.encode())));
         }
-        let n = if ctx.thorough { 40_000 } else { 4_000 };
+        // fitness-boundary stream (TeX.2021.817/852/853): the first k words form a line whose badness is
+        // exactly 12, 13, 99 or 100 (stretching) resp. 12 or 13 (shrinking) — the class boundaries — while
+        // the rest of the paragraph is random, so that the adj_demerits the class decides about tip the
+        // choice between competing sequences
+        let n_fit = if ctx.thorough { 30_000 } else { 2_000 };
+        let mut r = rng.fork();
+        for _ in 0..n_fit {
+            let k = 2 + r.below(3) as usize; // words in the engineered line
+            let words = k + 2 + r.below(5) as usize;
+            let (g, st, sh) = (*r.pick(&[3000i64, 4000, 5000]), *r.pick(&[1500i64, 2000, 3000]), *r.pick(&[500i64, 1000, 1500]));
+            let ws: Vec<i64> = (0..words).map(|_| 1000 * *r.pick(&[4i64, 6, 7, 9, 12, 15]) + r.range(0, 999)).collect();
+            let natural: i64 = ws[..k].iter().sum::<i64>() + (k as i64 - 1) * g;
+            let shrink_side = r.chance(1, 3);
+            let target = if shrink_side { *r.pick(&[12i64, 13]) } else { *r.pick(&[12i64, 13, 99, 100]) };
+            let s_tot = (k as i64 - 1) * if shrink_side { sh } else { st };
+            // all shortfalls with exactly that badness: take one at random (badness is monotone in t)
+            let (mut lo, mut hi) = (0i64, 2 * s_tot);
+            while lo < hi {
+                let mid = (lo + hi) / 2;
+                if tex_badness(mid, s_tot) < target { lo = mid + 1 } else { hi = mid }
+            }
+            let first = lo;
+            let (mut lo, mut hi) = (first, 2 * s_tot);
+            while lo < hi {
+                let mid = (lo + hi + 1) / 2;
+                if tex_badness(mid, s_tot) <= target { lo = mid } else { hi = mid - 1 }
+            }
+            if tex_badness(first, s_tot) != target || (shrink_side && first > s_tot) {
+                continue;
+            }
+            let last = if shrink_side { lo.min(s_tot) } else { lo };
+            let mid = r.range(first, last);
+            let t = *r.pick(&[first, last, mid]);
+            let width = if shrink_side { natural - t } else { natural + t };
+            let mut ws = ws;
+            if r.chance(2, 3) && words >= k + 3 {
+                // a second engineered line (k2 words) on the other side of a class boundary, so that the two
+                // lines are / are not adjacent classes: its last box is sized to give the wanted shortfall
+                let k2 = 2 + r.below(2) as usize;
+                let shrink2 = r.chance(1, 3);
+                let target2 = if shrink2 { *r.pick(&[12i64, 13, 50]) } else { *r.pick(&[12i64, 13, 50, 99, 100, 200]) };
+                let s2 = (k2 as i64 - 1) * if shrink2 { sh } else { st };
+                let (mut lo, mut hi) = (0i64, 2 * s2);
+                while lo < hi {
+                    let mid = (lo + hi) / 2;
+                    if tex_badness(mid, s2) < target2 { lo = mid + 1 } else { hi = mid }
+                }
+                if tex_badness(lo, s2) == target2 && !(shrink2 && lo > s2) {
+                    let others: i64 = ws[k..k + k2 - 1].iter().sum::<i64>() + (k2 as i64 - 1) * g;
+                    let last_box = if shrink2 { width + lo - others } else { width - lo - others };
+                    if last_box > 0 {
+                        ws[k + k2 - 1] = last_box;
+                    }
+                }
+            }
+            let mut items = vec![];
+            for (i, w) in ws.iter().enumerate() {
+                items.push(It::Box(*w));
+                if i + 1 < words {
+                    if r.chance(1, 6) {
+                        items.push(It::Penalty(*r.pick(&[50, -50, 100, 0])));
+                    }
+                    items.push(It::Glue(g, st, 0, sh));
+                }
+            }
+            items.push(It::Penalty(10000));
+            items.push(It::Glue(0, if r.chance(3, 4) { 65536 } else { 0 }, 1, 0));
+            let inst = Inst {
+                tol: *r.pick(&[10000, 10000, 200, 1000]),
+                emerg: 0,
+                line_pen: *r.pick(&[10, 10, 0, 50]),
+                hyph_pen: 50,
+                exhyph_pen: 50,
+                adj: *r.pick(&[10000, 10000, 3000, 20000, 500]),
+                dbl: 10000,
+                fin: 5000,
+                left: [0; 4],
+                right: [0; 4],
+                widths: vec![width],
+                items,
+            };
+            let q = *r.pick(&[0, 0, 0, 1, -1]);
+            v.push(format!("kp 0 {q} {}", join(&inst.encode())));
+        }
+        // passes stream: the user-level `break_line` (TeX.2021.816 + the three passes + line boxes)
+        let n_bl = if ctx.thorough { 10_000 } else { 600 };
+        let mut r = rng.fork();
+        for _ in 0..n_bl {
+            let mut inst = Self::gen_inst(&mut r, 30);
+            let unit: i64 = if inst.widths[0] >= 65536 { 65536 } else { 1 };
+            let n = inst.items.len();
+            // break_line appends \penalty10000\parfillskip itself
+            if n >= 2 && matches!(inst.items[n - 2], It::Penalty(10000)) && matches!(inst.items[n - 1], It::Glue(0, _, 1, 0)) {
+                inst.items.truncate(n - 2);
+            }
+            // HBox::pack has `todo!()` for marks and math nodes (boxworks ds.rs:207, :219): not generated here
+            inst.items.retain(|it| !matches!(it, It::Inert | It::Math(_)));
+            if r.chance(1, 3) {
+                // a trailing glue is removed by TeX.2021.816
+                inst.items.push(It::Glue(3 * unit, unit, 0, unit));
+            }
+            fix_replace(&mut inst.items);
+            inst.emerg = if r.chance(1, 2) { unit * *r.pick(&[5, 20, 100]) } else { 0 };
+            inst.tol = *r.pick(&[200, 200, 1000, 10000, 50]);
+            let pretol = *r.pick(&[-1, 100, 100, 50, 200, 10000]);
+            // where the hyphenator inserts discretionaries: between two boxes outside replaced ranges
+            let mut covered = vec![false; inst.items.len() + 1];
+            for (i, it) in inst.items.iter().enumerate() {
+                if let It::Disc(_, _, rc) = it {
+                    for k in 0..=(*rc as usize + 1) {
+                        if i + k < covered.len() {
+                            covered[i + k] = true;
+                        }
+                    }
+                }
+            }
+            let mut hyph = vec![];
+            for i in 1..inst.items.len() {
+                if matches!(inst.items[i - 1], It::Box(_)) && matches!(inst.items[i], It::Box(_)) && !covered[i] && !covered[i - 1] && r.chance(1, 3) {
+                    hyph.push((i, 2 * unit));
+                }
+            }
+            let pf = if r.chance(4, 5) { [0, 65536, 1, 0] } else { [0, unit * *r.pick(&[30, 100, 200]), 0, 0] };
+            let q = *r.pick(&[0, 0, 0, 0, 1, -1]);
+            v.push(BlCase { q, pretol, pf, hyph, inst }.case());
+        }
+        let n = if ctx.thorough { 40_000 } else { 3_600 };
         let mut r = rng.fork();
         for _ in 0..n {
             let inst = Self::gen_inst(&mut r, 60);
@@ -526,8 +858,11 @@ impl Property for C04 {
     }
 
     fn run_case(&mut self, case: &str, drv: &mut Driver) -> CaseOutcome {
+        if let Some(rest) = case.strip_prefix("bl ") {
+            return run_case_passes(rest, drv);
+        }
         let mut out = CaseOutcome::default();
-        let rest = case.strip_prefix("kp ").expect("case starts with kp");
+        let rest = case.strip_prefix("kp ").expect("case starts with kp or bl");
         let v = parse_i64s(rest);
         let (force, q) = (v[0] != 0, v[1]);
         let inst = Inst::decode(&v[2..]);
@@ -667,6 +1002,9 @@ impl Property for C04 {
     }
 
     fn shrink(&self, case: &str) -> Vec<String> {
+        if let Some(rest) = case.strip_prefix("bl ") {
+            return shrink_passes(rest);
+        }
         let rest = case.strip_prefix("kp ").unwrap();
         let v = parse_i64s(rest);
         let inst = Inst::decode(&v[2..]);
@@ -701,6 +1039,145 @@ impl Property for C04 {
         }
         c
     }
+}
+
+struct BlCase {
+    q: i64,
+    pretol: i64,
+    pf: [i64; 4],
+    hyph: Vec<(usize, i64)>,
+    inst: Inst,
+}
+impl BlCase {
+    fn parse(rest: &str) -> BlCase {
+        let v = parse_i64s(rest);
+        let nh = v[6] as usize;
+        let hyph = (0..nh).map(|k| (v[7 + 2 * k] as usize, v[8 + 2 * k])).collect();
+        BlCase { q: v[0], pretol: v[1], pf: [v[2], v[3], v[4], v[5]], hyph, inst: Inst::decode(&v[7 + 2 * nh..]) }
+    }
+    fn case(&self) -> String {
+        let mut v = vec![self.q, self.pretol];
+        v.extend(self.pf);
+        v.push(self.hyph.len() as i64);
+        for (p, w) in &self.hyph {
+            v.extend([*p as i64, *w]);
+        }
+        v.extend(self.inst.encode());
+        format!("bl {}", join(&v))
+    }
+    /// driver request: `passes q pretol pf.. inst nH (pos pre)* k nres b..`
+    fn request(&self, k: u8, breaks: &[usize]) -> String {
+        let mut v = vec![self.q, self.pretol];
+        v.extend(self.pf);
+        v.extend(self.inst.encode());
+        v.push(self.hyph.len() as i64);
+        for (p, w) in &self.hyph {
+            v.extend([*p as i64, *w]);
+        }
+        v.push(k as i64);
+        v.push(breaks.len() as i64);
+        v.extend(breaks.iter().map(|b| *b as i64));
+        format!("passes {}", join(&v))
+    }
+}
+
+/// Stream `passes`: the whole of `break_line` as a user calls it — TeX.2021.816 list preparation, the
+/// pretolerance / tolerance / emergency passes with hyphenation in between, the line boxes.
+fn run_case_passes(rest: &str, drv: &mut Driver) -> CaseOutcome {
+    let mut out = CaseOutcome::default();
+    let c = BlCase::parse(rest);
+    let real = caught(|| run_passes(&c.inst, c.q, c.pretol, c.pf, &c.hyph));
+    let run = match real {
+        Err(p) => {
+            let reply = drv.ask(&c.request(1, &[]));
+            if reply.contains("pverdict=skip:") {
+                out.tag("passes:skip:panic-outside-domain");
+            } else {
+                out.fail(Kind::ImplPanic, "passes", format!("break_line: panic {}", strip_msg(&p)), format!("break_line panicked: {p}"));
+            }
+            return out;
+        }
+        Ok(Err(msg)) => {
+            out.fail(Kind::ImplVsModel, "log", "logger protocol", msg);
+            return out;
+        }
+        Ok(Ok(r)) => r,
+    };
+    let reply = drv.ask(&c.request(run.attempt, &run.breaks));
+    let field = |k: &str| -> String {
+        reply.split_whitespace().find_map(|w| w.strip_prefix(&format!("{k}=")).map(|s| s.to_string())).unwrap_or_default()
+    };
+    let verdict = field("pverdict");
+    if verdict.is_empty() {
+        panic!("driver reply malformed: {reply}");
+    }
+    out.tag(format!("passes:verdict:{}", verdict.split(':').take(2).collect::<Vec<_>>().join(":")));
+    out.tag(format!("passes:answered-in-pass={} emergency={} hyph={}", run.attempt, (c.inst.emerg != 0) as i64, (!c.hyph.is_empty()) as i64));
+    out.nontrivial = !verdict.starts_with("skip") && run.breaks.len() >= 2;
+    if let Some(reason) = verdict.strip_prefix("bad:") {
+        let kind = if reason.ends_with("model-inconsistent") { Kind::ModelVsSpec } else { Kind::ImplVsSpec };
+        out.fail(kind, "passes", format!("passes: {reason}"), format!("answered in attempt {} with {:?}\nreply: {reply}", run.attempt, run.breaks));
+    }
+    // the model comparison also holds where the verdict abstains (forced pass without feasible
+    // sequence, ambiguous line count, non-monotone), but not where i32 may overflow
+    let skip = matches!(verdict.as_str(), "skip:demerits-may-overflow" | "skip:no-widths" | "skip:disc-malformed");
+    let model = field("pmodel");
+    if !skip && model != "skip" {
+        let real = format!("{}:[{}]", run.attempt, run.breaks.iter().map(|b| b.to_string()).collect::<Vec<_>>().join(","));
+        if real == model {
+            out.tag("passes:algo:equal");
+        } else {
+            out.fail(Kind::ImplVsModel, "passes-algo", "passes: attempt or break list differs from the model", format!("real : {real}\nmodel: {model}\nreply: {reply}"));
+        }
+        if field("plen") != run.final_len.to_string() {
+            out.fail(Kind::ImplVsModel, "passes-algo", "passes: prepared list has another length", format!("real list has {} items after break_line, model {}", run.final_len, field("plen")));
+        }
+        // the line boxes: one per break, each packed to the width the breaker assumed for that line
+        let want: Vec<i64> = (0..run.breaks.len()).map(|l| *c.inst.widths.get(l).unwrap_or(c.inst.widths.last().unwrap())).collect();
+        // ... and containing exactly the material the breaker measured for that line (natural width)
+        let nat = field("pnat");
+        let got = run.line_naturals.iter().map(|w| w.to_string()).collect::<Vec<_>>().join(",");
+        let same = nat.split(',').count() == run.line_naturals.len()
+            && nat.split(',').zip(run.line_naturals.iter()).all(|(m, r)| m == "x" || m == r.to_string());
+        if !same && !(nat.is_empty() && run.line_naturals.is_empty()) {
+            out.fail(
+                Kind::ImplVsModel,
+                "lines",
+                "lines: natural width of a line box differs from the width the breaker measured",
+                format!("breaks {:?}: measured by the breaker {nat}, contents of the boxes {got}", run.breaks),
+            );
+        }
+        if want != run.line_widths {
+            out.fail(Kind::ImplVsModel, "lines", "lines: boxes do not match the breaks (count or width)", format!("breaks {:?}: expected box widths {:?}, got {:?}", run.breaks, want, run.line_widths));
+        }
+    }
+    out
+}
+
+fn shrink_passes(rest: &str) -> Vec<String> {
+    let c = BlCase::parse(rest);
+    let mut v = vec![];
+    let n = c.inst.items.len();
+    for j in 0..n {
+        let mut d = BlCase { q: c.q, pretol: c.pretol, pf: c.pf, hyph: vec![], inst: c.inst.clone() };
+        d.inst.items.remove(j);
+        fix_replace(&mut d.inst.items);
+        d.hyph = c.hyph.iter().filter(|(p, _)| *p != j).map(|(p, w)| (if *p > j { *p - 1 } else { *p }, *w)).collect();
+        v.push(d.case());
+    }
+    for k in 0..c.hyph.len() {
+        let mut d = BlCase { q: c.q, pretol: c.pretol, pf: c.pf, hyph: c.hyph.clone(), inst: c.inst.clone() };
+        d.hyph.remove(k);
+        v.push(d.case());
+    }
+    let mut d = BlCase { q: c.q, pretol: c.pretol, pf: c.pf, hyph: c.hyph.clone(), inst: c.inst.clone() };
+    d.inst.left = [0; 4];
+    d.inst.right = [0; 4];
+    d.inst.widths.truncate(1);
+    if d.case() != c.case() {
+        v.push(d.case());
+    }
+    v
 }
 
 fn main() {
